@@ -20,6 +20,12 @@ from .kinds import (
 from .state import Outcome, State
 
 
+def _mangle_kind(k):
+    from .kinds import _mangle
+
+    return _mangle(k)
+
+
 def _simp(t):
     r = z3.simplify(t)
     if z3.is_true(r) or z3.is_false(r) or z3.is_int_value(r) or z3.is_string_value(r):
@@ -75,6 +81,9 @@ def elem_at(elem_kind, seq_t, idx_t) -> V:
 
 
 def to_str(eng, v: V) -> StrV:
+    if isinstance(v, DictV):
+        f = z3.Function("py_str_of_" + _mangle_kind(v.kind), v.kind.sort(), z3.StringSort())
+        return StrV(f(box(v, v.kind)))
     if isinstance(v, StrV):
         return v
     if isinstance(v, IntV):
@@ -359,6 +368,11 @@ def index(eng, st, base: V, idx: V, node):
         h = eng.registry.getitem_hook(base.cls)
         if h is not None:
             return h(eng, st, base, idx, node)
+        if isinstance(idx, StrV) and z3.is_string_value(_simp(idx.t)):
+            key = _simp(idx.t).as_string()   # SurveyElement.__getitem__ = getattr on the slot
+            if key in base.fields:
+                return [(st, base.fields[key])]
+            return [(st, RaiseV("AttributeError", None, f"{base.cls}[{key}] L{getattr(node, 'lineno', 0)}"))]
     if isinstance(base, NoneV):
         return [(st, RaiseV("TypeError", None, f"subscript None L{getattr(node, 'lineno', 0)}"))]
     raise Unsupported(f"index on {type(base).__name__}")
@@ -622,6 +636,14 @@ def call_method(eng, st, recv: V, meth: str, pos, kw, node):
         m = eng.registry.method_for(recv.cls, meth)
         if m is not None:
             return m.apply(eng, st, [recv, *pos], kw, node)
+        if meth == "get" and pos and isinstance(pos[0], StrV) and z3.is_string_value(_simp(pos[0].t)):
+            # SurveyElement.get(key[, default]) = getattr on the slot (Mapping over the object's slots)
+            key = _simp(pos[0].t).as_string()
+            if key in recv.fields:
+                return [(st, recv.fields[key])]
+            if len(pos) > 1:
+                return [(st, pos[1])]
+            return [(st, RaiseV("AttributeError", None, f"{recv.cls}.get({key}) L{node.lineno}"))]
         return [(st, RaiseV("AttributeError", None, f"{recv.cls}.{meth} L{node.lineno}"))]
     if isinstance(recv, OpaqueV):
         m = eng.registry.method_for(recv.kind.name, meth)
@@ -822,6 +844,13 @@ def re_sub_fn(pattern: str):
     return z3.Function(f"re_sub_{h}", z3.StringSort(), z3.StringSort(), z3.StringSort())
 
 
+def abstract_match(pattern: str, how: str):
+    import hashlib
+
+    h = hashlib.sha1(pattern.encode()).hexdigest()[:8]
+    return z3.Function(f"re_{how}_{h}", z3.StringSort(), z3.BoolSort())
+
+
 def regex_method(eng, st, pat, meth, pos, kw, node):
     """Compiled-regex methods: uninterpreted functions of (pattern, arguments) — trusted."""
     if meth == "sub" and len(pos) == 2 and all(isinstance(p, StrV) for p in pos):
@@ -830,9 +859,13 @@ def regex_method(eng, st, pat, meth, pos, kw, node):
     if meth in ("match", "search", "fullmatch") and len(pos) == 1 and isinstance(pos[0], StrV):
         from . import regexinc
 
-        lang = regexinc.match_language(pat, meth)
-        eng.trusted_used.add(f"re.{meth} for pattern {pat.pattern[:40]!r}: translated to an SMT regex (pyvc/regexinc.py); match object abstracted")
-        hit = z3.InRe(pos[0].t, lang)
+        if pat.pattern in getattr(eng, "abstract_patterns", ()):
+            # the contract only needs the code and the specification to use the *same* predicate
+            hit = abstract_match(pat.pattern, meth)(pos[0].t)
+        else:
+            lang = regexinc.match_language(pat, meth)
+            eng.trusted_used.add(f"re.{meth} for pattern {pat.pattern[:40]!r}: translated to an SMT regex (pyvc/regexinc.py); match object abstracted")
+            hit = z3.InRe(pos[0].t, lang)
         m = ObjV("Match", {"string": pos[0], "_pattern": ConstV(pat)})
         return [(st, UnionV([(hit, m), (z3.Not(hit), NONE)]))]
     raise Unsupported(f"regex method {meth}")
@@ -1437,6 +1470,25 @@ def model_for_object(obj):
     for name, fv in BUILTINS.items():
         if getattr_safe(_b, name) is obj:
             return fv.fn
+    import re as _re
+
+    if obj in (_re.search, _re.match, _re.fullmatch):
+        def _re_fn(eng, st, pos, kw, _name=obj.__name__):
+            pat = pos[0]
+            if isinstance(pat, ConstV) and isinstance(pat.obj, _re.Pattern):
+                cp = pat.obj
+            elif isinstance(pat, StrV) and z3.is_string_value(_simp(pat.t)):
+                cp = _re.compile(_simp(pat.t).as_string())
+            else:
+                raise Unsupported("re function with symbolic pattern")
+            outs = []
+            for s2, text in eng.split(st, pos[1]):
+                if isinstance(text, StrV):
+                    outs.extend(regex_method(eng, s2, cp, _name, [text], kw, None))
+                else:
+                    outs.append((s2, RaiseV("TypeError", None, f"re.{_name} on {type(text).__name__}")))
+            return outs
+        return _re_fn
     if obj is chr:
         def _chr(eng, st, pos, kw):
             iv = _simp(pos[0].t)
